@@ -5,7 +5,7 @@ p=$(readlink -f "$1"); label=$2; shift 2
 wt=/tmp/wt-cross-$$
 git -C /repo worktree add --detach "$wt" HEAD >/dev/null 2>&1 || exit 3
 if ! git -C "$wt" apply "$p" 2>/dev/null && ! git -C "$wt" apply --3way "$p" >/dev/null 2>&1; then echo "$label PATCH DOES NOT APPLY"; git -C /repo worktree remove --force "$wt"; exit 3; fi
-run1() { id=$1; out=$(cd /verif && VERIF_REPO="$wt" bin/check "$id" quick 2>&1); rc=$?; echo "$label x $id rc=$rc $(echo "$out" | grep '^\[check\] C' | tail -1 | sed 's/^\[check\] //')"; if [ $rc -ne 0 ]; then echo "$out" | grep "VIOLATION\|failed obligation" | head -4 | sed 's/^/      /'; mkdir -p /tmp/cross-replays/$label; cp /verif/replays/$id-quick-*.json /tmp/cross-replays/$label/ 2>/dev/null; fi; }
+run1() { id=$1; out=$(cd ${X_VERIF:-/verif} && VERIF_REPO="$wt" bin/check "$id" quick 2>&1); rc=$?; echo "$label x $id rc=$rc $(echo "$out" | grep '^\[check\] C' | tail -1 | sed 's/^\[check\] //')"; if [ $rc -ne 0 ]; then echo "$out" | grep "VIOLATION\|failed obligation" | head -4 | sed 's/^/      /'; mkdir -p /tmp/cross-replays/$label; cp ${X_VERIF:-/verif}/replays/$id-quick-*.json /tmp/cross-replays/$label/ 2>/dev/null; fi; }
 export -f run1; export wt label
 printf "%s\n" "$@" | xargs -P 3 -I{} bash -c 'run1 {}'
 git -C /repo worktree remove --force "$wt"
